@@ -1,10 +1,14 @@
 use crate::object::{Object, Type};
 use bitvec::prelude as bv;
+use std::collections::HashMap;
 
 // TODO: Change visibility of GC to crate-private (not directly possible because of pub Object type)
 pub struct GC {
     /// Vector of all currently alive heap-allocated objects in the universe
     objects: Vec<Object>,
+
+    /// The position of every traced object in `objects` (and in the mark bitmap), by address
+    positions: HashMap<*mut u8, usize>,
 
     /// All marked objects during a run.
     mark_bitmap: bv::BitVec,
@@ -15,6 +19,7 @@ impl GC {
     pub fn new() -> GC {
         Self {
             objects: Vec::new(),
+            positions: HashMap::new(),
             mark_bitmap: bv::BitVec::new(),
         }
     }
@@ -22,16 +27,27 @@ impl GC {
     #[inline]
     pub fn maybe_trace(&mut self, o: Object) {
         if o.is_heap_allocated() {
-            self.objects.push(o);
-            self.mark_bitmap.reserve(1);
+            self.trace(o);
         }
     }
 
     /// Adds the given object to the list of objects to manage
     #[inline]
     pub fn trace(&mut self, o: Object) {
+        self.positions.insert(o.as_ptr(), self.objects.len());
         self.objects.push(o);
         self.mark_bitmap.reserve(1);
+    }
+
+    /// Removes the object at the given position from the list of traced objects (in constant time:
+    /// the last object takes its place)
+    fn remove_at(&mut self, pos: usize) -> Object {
+        let object = self.objects.swap_remove(pos);
+        self.positions.remove(&object.as_ptr());
+        if let Some(moved) = self.objects.get(pos) {
+            self.positions.insert(moved.as_ptr(), pos);
+        }
+        object
     }
 
     /// Removes the given object (and everything it refers) from this garbage collector so it is no longer managed by it
@@ -39,12 +55,8 @@ impl GC {
         // (a list of pending objects instead of recursion: arrays can be nested very deeply)
         let mut pending = vec![o];
         while let Some(o) = pending.pop() {
-            if let Some(pos) = self
-                .objects
-                .iter()
-                .position(|a| std::ptr::eq(a.as_ptr(), o.as_ptr()))
-            {
-                self.objects.swap_remove(pos);
+            if let Some(pos) = self.positions.get(&o.as_ptr()).copied() {
+                self.remove_at(pos);
 
                 if o.tag() == Type::Array {
                     // Safety: We've already checked the type
@@ -111,8 +123,9 @@ impl GC {
     pub fn sweep(&mut self) {
         // Sweep in reverse unmarked order to preserve the index as
         // elements are removed from the objects vector.
-        for unmarked in self.mark_bitmap.iter_zeros().rev() {
-            let object = self.objects.swap_remove(unmarked);
+        let unmarked: Vec<usize> = self.mark_bitmap.iter_zeros().collect();
+        for unmarked in unmarked.into_iter().rev() {
+            let object = self.remove_at(unmarked);
             debug_assert!(object.is_heap_allocated());
             object.free();
         }
@@ -144,12 +157,8 @@ impl GC {
 
         // The position of this object in the list of traced objects is the position of its mark bit.
         // Objects that are not traced by this garbage collector are none of its business.
-        let index = match self
-            .objects
-            .iter()
-            .position(|a| std::ptr::eq(a.as_ptr(), o.as_ptr()))
-        {
-            Some(index) => index,
+        let index = match self.positions.get(&o.as_ptr()) {
+            Some(index) => *index,
             None => return,
         };
 
